@@ -619,6 +619,17 @@ def check(ctx):
     recs.update(run_jobs(base, [w[1] for w in wis], cases))
     alljobs = {j["name"]: j for j in jobs + [w for pair in wis for w in pair]}
 
+    # tie (B) results (reported in front of the correspondence findings)
+    try:
+        bridge_job.result()
+    except Exception as e:  # fail closed
+        shim.obls.append(("bridge:RuntimeBridge", False, "bridge run crashed: %s: %s" % (type(e).__name__, e)))
+    bridge_pool.shutdown()
+    for name, ok_, detail in shim.obls:
+        ctx.obligation(name, ok_, detail)
+    ctx.cov.update(shim.cov)
+
+
     for nm, r in recs.items():
         if "crash" in r:
             ctx.fail("correspondence", "C12:%s-crashed" % nm, r["crash"], hint={"history": hist_replay(alljobs[nm], cases)})
@@ -740,15 +751,6 @@ def check(ctx):
                     if d > TOL_SINGLE:
                         ctx.fail("correspondence", "C12:%s-op%d-precision" % (nm, i),
                                  "solve %s: single and double precision differ by %.3g of the field maximum (> 1e-5); %r" % (cid, d, sc.describe(cases[cid])), hint=hint)
-
-    try:
-        bridge_job.result()
-    except Exception as e:  # fail closed
-        shim.obls.append(("bridge:RuntimeBridge", False, "bridge run crashed: %s: %s" % (type(e).__name__, e)))
-    bridge_pool.shutdown()
-    for name, ok_, detail in shim.obls:
-        ctx.obligation(name, ok_, detail)
-    ctx.cov.update(shim.cov)
 
     hist = [j for j in jobs if j["kind"] == "history"]
     nops = sum(len(j["ops"]) for j in hist)
